@@ -79,7 +79,7 @@ TraceMsg ==
   /\ IsEvent("msg")
   /\ LET e == Trace[l]  c == e.c IN
      /\ ("C08" \in Lens) =>
-          /\ e.res = "reply" /\ ~e.stop /\ e.extra = 0
+          /\ e.res = "reply" /\ e.extra = 0
           /\ Len(e.ans) = Len(e.ias)
           /\ \A k \in Idx(e.ias) : AnswerOK(c, e.ias[k], e.ans[k])
      /\ ("C09" \in Lens) =>
